@@ -33,6 +33,7 @@ pub fn profile() -> Profile {
         nested_inline: true,
         label_diverts: true,
         block_sequences: true,
+        switch_blocks: true,
         max_depth: 3,
         ..Profile::default()
     }
